@@ -8,7 +8,7 @@ from .spec import M, S, T, Built, _mk_async, _mk_sync
 NAMES_SM = ("before_transition", "on_exit_state", "on_transition", "on_enter_state",
             "after_transition", "g1")
 NAMES_MODEL = ("on_enter_state", "after_transition")
-NAMES_L = ("on_transition", "on_enter_s1")
+NAMES_L = ("on_transition", "on_enter_s1", "lact")
 
 
 class CopyModel:
@@ -35,11 +35,13 @@ class CopyListener:
 
     on_transition = _mk_sync("on_transition")
     on_enter_s1 = _mk_sync("on_enter_s1")
+    lact = _mk_sync("lact")
 
 
 class CopyListenerAsync(CopyListener):
     on_transition = _mk_async("on_transition")
     on_enter_s1 = _mk_async("on_enter_s1")
+    lact = _mk_async("lact")
 
 
 class CopySync(StateMachine):
@@ -110,9 +112,34 @@ class CopyPlain(StateMachine):
     g1 = _mk_sync("g1")
 
 
-def spec(with_model=True, with_listener=True):
+class CopyLis(StateMachine):
+    """An inline action name (`on="lact"`) that only the constructor listener provides."""
+    _prov = "sm"
+    s0 = State(initial=True)
+    s1 = State(value=0)
+    s2 = State(value="")
+
+    a = s0.to(s1, cond="g1", on="lact") | s0.to(s2) | s1.to(s2, on="lact") | s2.to(s0)
+    b = s0.to.itself() | s1.to.itself() | s2.to.itself()
+
+    def __init__(self, *args, **kwargs):
+        self.custom = {"list": [1, 2], "tag": "x"}
+        self._secret = ["s"]
+        super().__init__(*args, **kwargs)
+
+    before_transition = _mk_sync("before_transition")
+    on_exit_state = _mk_sync("on_exit_state")
+    on_transition = _mk_sync("on_transition")
+    on_enter_state = _mk_sync("on_enter_state")
+    after_transition = _mk_sync("after_transition")
+    g1 = _mk_sync("g1")
+
+
+def spec(with_model=True, with_listener=True, lis_action=False):
     states = (S("s0", initial=True), S("s1", value=0), S("s2", value=""))
-    trans = (T("s0", "s1", ("a",), cond=("g1",)), T("s0", "s2", ("a",)), T("s1", "s2", ("a",)),
+    la = ("lact",) if lis_action else ()
+    trans = (T("s0", "s1", ("a",), cond=("g1",), on=la), T("s0", "s2", ("a",)),
+             T("s1", "s2", ("a",), on=la),
              T("s2", "s0", ("a",)), T("s0", "s0", ("b",)), T("s1", "s1", ("b",)),
              T("s2", "s2", ("b",)))
     prov = [("sm", n, "") for n in NAMES_SM]
@@ -125,8 +152,8 @@ def spec(with_model=True, with_listener=True):
 
 
 def built_for(kind, with_model=True, with_listener=True):
-    cls = {"sync": CopySync, "async": CopyAsync, "plain": CopyPlain}[kind]
-    m = spec(with_model, with_listener)
+    cls = {"sync": CopySync, "async": CopyAsync, "plain": CopyPlain, "lis": CopyLis}[kind]
+    m = spec(with_model, with_listener, lis_action=(kind == "lis"))
     tr = []
     for s in cls.states:
         pass
